@@ -159,7 +159,7 @@ def count_sources(defn):
     return out
 
 
-def gen_items(rng, lay, d, idx, counts, esf, depth=0, maxrep=3):
+def gen_items(rng, lay, d, idx, counts, esf, depth=0, maxrep=3, forcerep=None):
     for k, v in d.items():
         if isinstance(v, tuple):
             numr, sub = v
@@ -170,13 +170,13 @@ def gen_items(rng, lay, d, idx, counts, esf, depth=0, maxrep=3):
                 if isinstance(numr, int):
                     n = numr
                 elif numr == "None":
-                    n = rng.choice([0, 1, 1, 2, 3, maxrep])
+                    n = rng.choice([0, 1, 1, 2, 3, maxrep]) if forcerep is None else forcerep
                 else:
                     n = counts[numr]
                     if esf and counts.get("calibTtagValid"):
                         n += 1
                 for i in range(n):
-                    gen_items(rng, lay, sub, idx + [i + 1], counts, esf, depth + 1, maxrep)
+                    gen_items(rng, lay, sub, idx + [i + 1], counts, esf, depth + 1, maxrep, forcerep)
         elif isinstance(v, list):
             gen_attr(rng, lay, k, v[0], v[1], idx, counts.get(k) if not idx else None)
         else:
@@ -237,7 +237,7 @@ def is_cfgval(ent):
     return ent["cls"] == b"\x06" and ((ent["id"] == b"\x8b" and ent["mode"] == GET) or (ent["id"] == b"\x8a" and ent["mode"] == SET))
 
 
-def layout(rng, ent, maxrep=3, pin=True):
+def layout(rng, ent, maxrep=3, pin=True, forcerep=None):
     """a random value tree for catalogue entry `ent`, laid out as payload bytes.
     returns Layout or None when the definition's counts cannot be expressed."""
     d = ent["defn"]
@@ -248,13 +248,13 @@ def layout(rng, ent, maxrep=3, pin=True):
         w = find_width(d, src)
         if w is None:
             return None
-        counts[src] = min(rng.choice([0, 1, 1, 2, 3, maxrep]), (1 << w) - 1)
+        counts[src] = min(rng.choice([0, 1, 1, 2, 3, maxrep]) if forcerep is None else forcerep, (1 << w) - 1)
     esf = ent["mode"] == SET and ent["cls"] == b"\x10" and ent["id"] == b"\x02"
     if esf and "calibTtagValid" not in counts:
         counts["calibTtagValid"] = rng.choice([0, 1])
     lay = Layout()
     try:
-        gen_items(rng, lay, d, [], counts, esf, 0, maxrep)
+        gen_items(rng, lay, d, [], counts, esf, 0, maxrep, forcerep)
     except (KeyError, ValueError):
         return None
     if pin and ent.get("pin"):
